@@ -250,6 +250,74 @@ func c19MoreTargets() []c19Target {
 			}
 			return c19Res{ok: ok}
 		}})
+	// option structs: the context is caller-supplied bytes of any length; 0..255 are legal for Ed25519ctx / Ed25519ph,
+	// anything longer is an error from Sign, an invalid batch entry, and the documented panic of the Verify forms
+	add(c19Target{name: "ed25519.Options(context)", size: ed25519.ContextMaxSize, anyLength: true,
+		docPanic: func(b []byte) bool { return len(b) > ed25519.ContextMaxSize },
+		gen: func(c *c19Ctx) []byte {
+			c.priv = c.g.EdKey()
+			c.aux["pk"] = clone(c.priv[32:])
+			c.aux["msg"] = c.g.Msg()
+			return c.g.Bytes(ed25519.ContextMaxSize) // truncation visits every shorter length, extension 256, 257 and 510
+		},
+		try: func(c *c19Ctx, prev, b []byte) c19Res {
+			tooLong := len(b) > ed25519.ContextMaxSize
+			d := sha512.Sum512(c.aux["msg"])
+			pk := ed25519.PublicKey(c.aux["pk"])
+			hashes := []crypto.Hash{0, crypto.SHA512}
+			if len(b)%2 == 1 {
+				hashes[0], hashes[1] = hashes[1], hashes[0] // an over-long context ends the call at the first documented panic
+			}
+			for hi, h := range hashes {
+				msg := c.aux["msg"]
+				if h != 0 {
+					msg = d[:]
+				}
+				o := &ed25519.Options{Hash: h, Context: string(b)}
+				sig, err := c.priv.Sign(nil, msg, o)
+				if err != nil && sig != nil {
+					return c19Res{bad: "Sign returned a signature together with an error"}
+				}
+				if tooLong && err == nil {
+					return c19Res{bad: "Sign produced a signature under a context longer than 255 bytes"}
+				}
+				if !tooLong && err != nil {
+					return c19Res{bad: "Sign refused a context of legal length: " + err.Error()}
+				}
+				if tooLong {
+					// a signature under the longest legal prefix: nothing may accept it under the long context
+					if sig, err = c.priv.Sign(nil, msg, &ed25519.Options{Hash: h, Context: string(b[:ed25519.ContextMaxSize])}); err != nil {
+						return c19Res{bad: "Sign refused a context of 255 bytes: " + err.Error()}
+					}
+				}
+				v := ed25519.NewBatchVerifier()
+				v.AddWithOptions(pk, msg, sig, o)
+				if ek, err := ed25519.NewExpandedPublicKey(pk); err == nil {
+					v.AddExpandedWithOptions(ek, msg, sig, o)
+				}
+				cv := cache.NewVerifier(cache.NewLRUCache(2))
+				cv.AddWithOptions(v, pk, msg, sig, o)
+				bok, res := v.Verify(det())
+				if bok == tooLong || len(res) != 3 || res[0] == tooLong || res[1] == tooLong || res[2] == tooLong {
+					return c19Res{bad: fmt.Sprintf("batch verification under a %d-byte context: ok=%v results=%v", len(b), bok, res)}
+				}
+				// the three single forms document a panic for an over-long context: one of them per input, last
+				var ok bool
+				switch (len(b) + hi + int(d[0])) % 3 {
+				case 0:
+					ok = ed25519.VerifyWithOptions(pk, msg, sig, o)
+				case 1:
+					ek, _ := ed25519.NewExpandedPublicKey(pk)
+					ok = ed25519.VerifyExpandedWithOptions(ek, msg, sig, o)
+				default:
+					ok = cv.VerifyWithOptions(pk, msg, sig, o)
+				}
+				if ok == tooLong {
+					return c19Res{bad: fmt.Sprintf("single verification under a %d-byte context = %v", len(b), ok)}
+				}
+			}
+			return c19Res{ok: !tooLong}
+		}})
 	// provers take a private key: the error-returning forms must return an error for a malformed key
 	add(c19Target{name: "ecvrf.ProveWithAddedRandomness(private key)", size: 64,
 		gen: func(c *c19Ctx) []byte { c.aux["msg"] = c.g.Msg(); return clone(c.g.EdKey()) },
